@@ -34,6 +34,8 @@ def _ok_stem(s):
 def member_name(draw, ext=".ics", fancy=True):
     if not fancy:
         stem = draw(st.text(st.sampled_from(list(NAME_PLAIN)), min_size=1, max_size=6))
+        if draw(st.integers(0, 9)) == 0:
+            return "." + stem + ext  # a hidden-file name is a legitimate member name
     else:
         stem = draw(
             st.one_of(
